@@ -478,7 +478,7 @@ def run_case(fam, impl, rng, rec, tag, *, ledger_mode=False, refuse=True,
         now_b = harness.contents(B, b_map)
     except Exception as e:
         fail('contents-raised-afterwards', detail='%s: %s' % (
-            type(e).__name__, e))
+            type(e).__name__, e), refused=refused, stored=True, which='A')
         return
     if not eq(now_b, before_b):
         fail('second-operand-changed', observed=brief(now_b, 300),
